@@ -12,7 +12,9 @@ import gen_types as GT
 from checklib import *
 from checks_reader import parse_kv, finish_proof, cases_count
 
-C09_THEOREMS = []
+C09_THEOREMS = ['BinlogVerif.C09.c09_no_trap', 'BinlogVerif.C09.c09_error_is_std', 'BinlogVerif.C09.c09_text_output_stream_no_trap',
+                'BinlogVerif.C09.c09_visit_no_trap', 'BinlogVerif.C09.c09_recursion_bounded', 'BinlogVerif.Generated.max_recursion',
+                'BinlogVerif.Generated.repeat_threshold']
 
 EVENT_FORMATS = [b'%S %C [%d] %n %m (%G:%L)\n', b'%m\n', b'%I %S %C %M %F %G %L %P %T %n %t %d %u %r %m %% %q %\n', b'%u|%m\n',
                  b'%d %m\n', b'', b'%', b'%%%', b'x\n', b'%m %m\n', b'%T|%P\n']
